@@ -2082,3 +2082,161 @@ pub fn c01_identity_binding(nd: &mut Nondet) {
         }
     }
 }
+
+// ------------------------------------------------------------------------------------------ C03 stream variant: dialer vs listener over an in-memory link
+use litep2p::multistream_select::{dialer_select_proto, listener_select_proto, Version};
+use std::future::Future;
+
+struct Link { ab: Vec<u8>, ab_read: usize, ba: Vec<u8>, ba_read: usize, a_closed: bool, b_closed: bool }
+
+/// One end of an in-memory duplex whose chunking / Pending answers are scripted by `Nondet`.
+pub struct LinkEnd { link: *mut Link, is_a: bool, nd: *mut Nondet, budget: *mut u64 }
+unsafe impl Send for LinkEnd {}
+
+impl LinkEnd {
+    fn scripted(&mut self) -> bool { let b = unsafe { &mut *self.budget }; if *b > 0 { *b -= 1; true } else { false } }
+}
+
+impl futures::io::AsyncRead for LinkEnd {
+    fn poll_read(mut self: Pin<&mut Self>, _cx: &mut Context<'_>, buf: &mut [u8]) -> Poll<std::io::Result<usize>> {
+        let nd = unsafe { &mut *self.nd };
+        let link = unsafe { &mut *self.link };
+        let scripted = self.scripted();
+        if scripted && nd.bool("read_pending") { return Poll::Pending; }
+        let (queue, pos, peer_closed) = if self.is_a { (&link.ba, &mut link.ba_read, link.b_closed) } else { (&link.ab, &mut link.ab_read, link.a_closed) };
+        let left = queue.len() - *pos;
+        if left == 0 { return if peer_closed { Poll::Ready(Ok(0)) } else { Poll::Pending }; }
+        let avail = if left < buf.len() { left } else { buf.len() };
+        if avail == 0 { return Poll::Ready(Ok(0)); }
+        let n = if scripted && nd.bool("read_one_byte") { 1 } else { avail };
+        let p = *pos;
+        buf[..n].copy_from_slice(&queue[p..p + n]);
+        *pos += n;
+        Poll::Ready(Ok(n))
+    }
+}
+
+impl futures::io::AsyncWrite for LinkEnd {
+    fn poll_write(mut self: Pin<&mut Self>, _cx: &mut Context<'_>, buf: &[u8]) -> Poll<std::io::Result<usize>> {
+        let nd = unsafe { &mut *self.nd };
+        let link = unsafe { &mut *self.link };
+        if buf.is_empty() { return Poll::Ready(Ok(0)); }
+        let scripted = self.scripted();
+        if scripted && nd.bool("write_pending") { return Poll::Pending; }
+        let n = if scripted && nd.bool("write_one_byte") { 1 } else { buf.len() };
+        if self.is_a { link.ab.extend_from_slice(&buf[..n]); } else { link.ba.extend_from_slice(&buf[..n]); }
+        Poll::Ready(Ok(n))
+    }
+    fn poll_flush(mut self: Pin<&mut Self>, _cx: &mut Context<'_>) -> Poll<std::io::Result<()>> {
+        let nd = unsafe { &mut *self.nd };
+        if self.scripted() && nd.bool("flush_pending") { Poll::Pending } else { Poll::Ready(Ok(())) }
+    }
+    fn poll_close(self: Pin<&mut Self>, _cx: &mut Context<'_>) -> Poll<std::io::Result<()>> { Poll::Ready(Ok(())) }
+}
+
+/// C03 (stream variant): the real dialer and listener futures negotiate over a link with scripted fragmentation,
+/// then two payload bytes are written right after negotiation.
+pub fn c03_stream_negotiation(nd: &mut Nondet) {
+    const NAMES: [&str; 3] = ["/a", "/b", "/c"];
+    // dialer: one or two names in preference order; listener: a set of up to two names
+    let d0 = nd.choose("dialer_first", 3) as usize;
+    let mut offered: Vec<&'static str> = vec![NAMES[d0]];
+    if nd.bool("dialer_has_second") { offered.push(NAMES[(d0 + 1) % 3]); }
+    let mut supported: Vec<&'static str> = Vec::new();
+    for i in 0..3 { if supported.len() < 2 && nd.bool("listener_supports") { supported.push(NAMES[i]); } }
+    let lazy = nd.bool("lazy");
+    let version = if lazy { Version::V1Lazy } else { Version::V1 };
+    let expected: Option<&'static str> = offered.iter().copied().find(|n| supported.contains(n));
+
+    let mut link = Link { ab: Vec::new(), ab_read: 0, ba: Vec::new(), ba_read: 0, a_closed: false, b_closed: false };
+    let lp = &mut link as *mut Link;
+    let mut budget = param("io_budget", 2);
+    let bp = &mut budget as *mut u64;
+    let end_a = LinkEnd { link: lp, is_a: true, nd: nd as *mut Nondet, budget: bp };
+    let end_b = LinkEnd { link: lp, is_a: false, nd: nd as *mut Nondet, budget: bp };
+    let mut dialer = dialer_select_proto(end_a, offered.clone(), version);
+    let mut listener = listener_select_proto(end_b, supported.clone());
+    let waker = noop_waker();
+    let mut cx = Context::from_waker(&waker);
+
+    // each side is either still negotiating (future), negotiated (stream) or has failed
+    let mut d_fut = Some(dialer);
+    let mut l_fut = Some(listener);
+    let mut d_io = None;
+    let mut l_io = None;
+    let mut d_name: Option<&'static str> = None;
+    let mut l_name: Option<&'static str> = None;
+    let mut d_failed = false;
+    let mut l_failed = false;
+    let payload = [0xAAu8, 0x55u8];
+    let mut written = 0;
+    let mut got: Vec<u8> = Vec::new();
+    let mut rounds = 0;
+    loop {
+        rounds += 1;
+        if rounds > 40 { check("c03s.negotiation-terminates", false); return; }
+        // ---- dialer side
+        if let Some(fut) = d_fut.as_mut() {
+            if let Poll::Ready(r) = Pin::new(fut).poll(&mut cx) {
+                d_fut = None;
+                match r { Ok((name, io)) => { d_name = Some(name); d_io = Some(io); } Err(_) => { d_failed = true; unsafe { (*lp).a_closed = true; } } }
+            }
+        } else if let Some(io) = d_io.as_mut() {
+            // payload right after negotiation (for a lazy dialer this also sends the buffered proposal)
+            if written < 2 {
+                match futures::io::AsyncWrite::poll_write(Pin::new(io), &mut cx, &payload[written..]) {
+                    Poll::Ready(Ok(n)) => written += n,
+                    Poll::Ready(Err(_)) => { d_io = None; d_failed = true; unsafe { (*lp).a_closed = true; } }
+                    Poll::Pending => {}
+                }
+            } else {
+                match futures::io::AsyncWrite::poll_flush(Pin::new(io), &mut cx) {
+                    Poll::Ready(Err(_)) => { d_io = None; d_failed = true; unsafe { (*lp).a_closed = true; } }
+                    Poll::Ready(Ok(())) => {
+                        // the application then waits for an answer: a lazy dialer learns of a refusal here
+                        let mut buf = [0u8; 4];
+                        if let Poll::Ready(Err(_)) = futures::io::AsyncRead::poll_read(Pin::new(io), &mut cx, &mut buf) {
+                            d_io = None; d_failed = true; unsafe { (*lp).a_closed = true; }
+                        }
+                    }
+                    Poll::Pending => {}
+                }
+            }
+        }
+        // ---- listener side
+        if let Some(fut) = l_fut.as_mut() {
+            if let Poll::Ready(r) = Pin::new(fut).poll(&mut cx) {
+                l_fut = None;
+                match r { Ok((name, io)) => { l_name = Some(name); l_io = Some(io); } Err(_) => { l_failed = true; unsafe { (*lp).b_closed = true; } } }
+            }
+        } else if let Some(io) = l_io.as_mut() {
+            let mut buf = [0u8; 4];
+            match futures::io::AsyncRead::poll_read(Pin::new(io), &mut cx, &mut buf) {
+                Poll::Ready(Ok(n)) => got.extend_from_slice(&buf[..n]),
+                Poll::Ready(Err(_)) => { check("c03s.read-after-negotiation-succeeds", false); return; }
+                Poll::Pending => {}
+            }
+        }
+        // ---- verdicts
+        if got.len() >= 2 {
+            cover("c03s.agreed");
+            check("c03s.both-report-the-same-protocol", d_name == l_name);
+            check("c03s.it-is-the-dialers-most-preferred-common-one", d_name == expected && expected.is_some());
+            check("c03s.payload-is-transparent", got[..] == payload[..]);
+            return;
+        }
+        if d_failed && l_failed {
+            cover("c03s.both-failed");
+            check("c03s.failure-only-without-a-common-protocol", expected.is_none());
+            return;
+        }
+        if d_failed && l_name.is_some() { check("c03s.dialer-fails-while-listener-succeeded", false); return; }
+        if l_failed && !d_failed && d_fut.is_none() {
+            // only an optimistic (lazy, single protocol) dialer can be ahead of a listener that refused
+            cover("c03s.lazy-rejected");
+            check("c03s.only-a-lazy-dialer-runs-ahead-of-a-refusing-listener", lazy && offered.len() == 1 && expected.is_none());
+            return;
+        }
+    }
+}
+
